@@ -9,7 +9,7 @@ from . import explore
 
 
 def run(pid, tier, plan, oracle_name, monitors_name=None, assumptions=(), extra_cov=None,
-        replay=None, conformance=None, extra_violations=()):
+        replay=None, conformance=None, extra_violations=(), post_summary=None):
     rep = framework.Report(pid, tier, "model_checking")
     rep.assumptions = list(assumptions) + [
         "modelled kernel (vf.sim.shims) bound to the real primitives by vf.selftest "
@@ -71,6 +71,9 @@ def run(pid, tier, plan, oracle_name, monitors_name=None, assumptions=(), extra_
                       f"{time.time() - t1:.1f}s", flush=True)
     finally:
         pool.close()
+    if post_summary is not None:
+        conformance = dict(conformance or {})
+        conformance.update(post_summary(total) or {})
     for v in total.violations:
         rep.add_violation(v)
     for v in extra_violations:
